@@ -11,7 +11,7 @@ META = {
     'assumptions': ['numbering rules as in DESIGN.md B.5 (README "ANM files", doc/syntax.md, comments in anm/mod.rs)'],
     'floors': {'anm_layouts': 80, 'msg_layouts': 60, 'ecl_layouts': 40, 'std_layouts': 40, 'names_checked': 800, 'expected_errors': 20},
 }
-SIZES = {'quick': 1200, 'thorough': 40000}
+SIZES = {'quick': 3600, 'thorough': 40000}
 
 def anm_case(ctx, r):
     game = r.pick(['th07', 'th08', 'th10', 'th12', 'th14', 'th17'])
